@@ -203,6 +203,7 @@ var _ cluster.PDRegister = (*Reg)(nil)
 
 type State struct {
 	Downs, Flips int // fault budgets used
+	OpRemoves    int // operator removals requested
 	Replica  cluster.PartitionReplicaInfo
 	Live     []bool // per node index
 	Synced   []bool
@@ -213,7 +214,7 @@ type State struct {
 }
 
 func (s *State) clone() *State {
-	n := &State{Downs: s.Downs, Flips: s.Flips, Replica: s.Replica.DeepClone(), Live: append([]bool(nil), s.Live...), Synced: append([]bool(nil), s.Synced...), Members: map[int]uint64{}, Waiting: s.Waiting, UsedIDs: map[uint64]int{}}
+	n := &State{Downs: s.Downs, Flips: s.Flips, OpRemoves: s.OpRemoves, Replica: s.Replica.DeepClone(), Live: append([]bool(nil), s.Live...), Synced: append([]bool(nil), s.Synced...), Members: map[int]uint64{}, Waiting: s.Waiting, UsedIDs: map[uint64]int{}}
 	for k, v := range s.Members {
 		n.Members[k] = v
 	}
@@ -243,7 +244,7 @@ func (s *State) key(nodes *Nodes) string {
 		rm = append(rm, idx(n))
 	}
 	sort.Ints(rm)
-	fmt.Fprintf(&sb, "%v|max:%d|live:%v|sync:%v|w:%v|b:%d,%d|m:", rm, s.Replica.MaxRaftID, s.Live, s.Synced, s.Waiting, s.Downs, s.Flips)
+	fmt.Fprintf(&sb, "%v|max:%d|live:%v|sync:%v|w:%v|b:%d,%d,%d|m:", rm, s.Replica.MaxRaftID, s.Live, s.Synced, s.Waiting, s.Downs, s.Flips, s.OpRemoves)
 	var ms []int
 	for n := range s.Members {
 		ms = append(ms, n)
@@ -270,7 +271,7 @@ type Stats struct {
 }
 
 // Run explores one configuration (replica factor, node count) by BFS.
-const maxDowns, maxFlips = 2, 1
+const maxDowns, maxFlips, maxOpRemoves = 2, 1, 2
 
 // Seeds: start from non-initial states too. Each is a path of environment events applied to
 // the initial state before the search starts (coordinator writes are never fabricated).
@@ -347,6 +348,14 @@ func Run(col *ev.Collector, nodes *Nodes, replica, nNodes, depth int, seed strin
 					evs = append(evs, fmt.Sprintf("sync-flip %d", i))
 				}
 			}
+			// the operator (or the balancer) asks to take the partition off a node that holds it
+			if s.OpRemoves < maxOpRemoves {
+				for _, id := range s.Replica.RaftNodes {
+					if _, removing := s.Replica.Removings[id]; !removing {
+						evs = append(evs, fmt.Sprintf("operator-remove %d", idxOf[id]))
+					}
+				}
+			}
 			for _, id := range s.Replica.RaftNodes {
 				i := idxOf[id]
 				_, removing := s.Replica.Removings[id]
@@ -418,6 +427,10 @@ func Run(col *ev.Collector, nodes *Nodes, replica, nNodes, depth int, seed strin
 					if e == "check-round" {
 						coord.VerifCheckRound(waiting)
 						_, n.Waiting = waiting[NS][0]
+					} else if strings.HasPrefix(e, "operator-remove ") {
+						fmt.Sscanf(e, "operator-remove %d", &a)
+						coord.VerifRemoveFromNode(NS, 0, nodes.IDs[a])
+						n.OpRemoves++
 					} else {
 						coord.VerifBalanceAddOnce(NS, 0)
 					}
